@@ -184,9 +184,13 @@ def mk_case(sem: Sem, shape: dict):
     alias = shape.get("alias", "none")
     conc = shape.get("conc", "none")
     a = mk_operand(sem, "a", n1, concrete=(conc == "lhs"))
+    if conc == "both" and not dyn:
+        a = bv(shape["vals"][0])
     ops = [a]
     if sem.nops == 2:
-        if alias == "same":
+        if conc == "both" and not dyn:
+            b = bv(shape["vals"][1])
+        elif alias == "same":
             b = a
         elif alias == "prefix" and dyn:
             # the shorter operand is a prefix of the longer one ([x] vs [x,y])
